@@ -213,6 +213,9 @@ func cmdCheck(args []string) int {
 	}
 	genS := time.Since(t0).Seconds() - loadS
 	solveAll(all, workDir, secs, 16)
+	if n := retryFailed(all, workDir, secs); n > 0 {
+		notes = append(notes, fmt.Sprintf("%d obligations discharged only on the second (sequential, longer limit) attempt", n))
+	}
 	// informational reachability of returns: reported, never part of the verdict
 	solveAll(infoObls, filepath.Join(workDir, "info"), 2, 16)
 	unreachable := 0
